@@ -471,6 +471,34 @@ def run(tier, replay):
             if kind == "nextcounter":
                 hi = endrows.get(sid, row)
             ecases.append((kind, text, lo, hi))
+    # a SUB / FUNCTION defined a second time (the same text again, or with one more parameter): a duplicate definition, reported
+    # in the second definition
+    import re as _re
+    ndup = 0
+    for p in bases:
+        if not p.get("subs") or ndup >= (2000 if tier == "thorough" else 150):
+            continue
+        try:
+            text = render.program(p)[0]
+        except render.RenderError:
+            continue
+        lines = text.split("\r\n")
+        heads = [i for i, ln in enumerate(lines) if _re.match(r"(SUB|FUNCTION) ", ln)]
+        if not heads:
+            continue
+        h = rng.choice(heads)
+        e = next(i for i in range(h, len(lines)) if _re.match(r"END (SUB|FUNCTION)", lines[i]))
+        block = lines[h:e + 1]
+        for variant in ("same", "more-params"):
+            blk = list(block)
+            if variant == "more-params":
+                m = _re.match(r"((?:SUB|FUNCTION) [A-Za-z0-9.]+[%&!#$]?)(\((.*)\))?(.*)$", blk[0])
+                blk[0] = m.group(1) + "(" + ((m.group(3) + ", ") if m.group(3) else "") + "ZZ9%)" + m.group(4)
+            body = [ln for ln in lines if ln != ""]
+            t2 = "\r\n".join(body + blk) + "\r\n"
+            lo = len(body) + 1
+            ecases.append(("duplicate", t2, lo, lo + len(blk) - 1))
+            ndup += 1
     eresps = pool.map([{"op": "run", "text": c[1], "norun": True} for c in ecases], timeout=60)
     for (kind, text, lo, hi), resp in zip(ecases, eresps):
         rid += 1
